@@ -865,8 +865,62 @@ def item_timeouts(repo):
     return 'def timeoutShapeChecked : Bool := true\n'
 
 
+def item_router(repo):
+    """routing (C16): the statement sequences of Router::{route, merge, route_layer, call} and the matcher"""
+    r = strip_comments(read(repo, 'crates/anemo/src/routing/mod.rs'))
+    cut = r.find('#[cfg(test)]')
+    if cut > 0:
+        r = r[:cut]
+    f = flat(r)
+    pieces = {
+        'route': 'if path.is_empty() { panic!("Paths must start with a `/`. Use \\"/\\" for root routes"); } else if !path.starts_with(\'/\') { panic!("Paths must start with a `/`"); } if <dyn std::any::Any>::downcast_ref::<Self>(&service).is_some() { panic!("Invalid route: `Router::route` cannot be used with `Router`s.") } let id = RouteId::next(); let service = try_downcast::<Route, _>(service).unwrap_or_else(|service| Route::new(service)); if let Err(err) = self.matcher.insert(path, id) { panic!("Invalid route: {err}"); } self.routes.insert(id, service); self',
+        'merge': 'let Router { routes, matcher, fallback, } = other.into(); for (id, route) in routes { let path = matcher .route_id_to_path .get(&id) .expect("no path for route id. This is a bug in anemo. Please file an issue"); self = self.route(path, route); } let _fallback = fallback; self',
+        'route_layer': 'let Router { routes, matcher, fallback, } = self; let routes = routes .into_iter() .map(|(id, route)| { let route = Route::new(layer.layer(route)); (id, route) }) .collect(); Router { routes, matcher, fallback, }',
+        'call': 'use matchit::MatchError; let path = req.route(); match self.matcher.at(path) { Ok(match_) => { let route = self .routes .get(match_.value) .expect("no route for id; this is a bug"); route.oneshot_inner(req) } Err(MatchError::MissingTrailingSlash) | Err(MatchError::ExtraTrailingSlash) | Err(MatchError::NotFound) => self.fallback.oneshot_inner(req), }',
+        'new': 'Self { routes: Default::default(), matcher: Default::default(), fallback: Route::new(not_found::NotFound), }',
+    }
+    heads = {'route': r'pub fn route<T>\(mut self, path: &str, service: T\) -> Self', 'merge': r'pub fn merge<R>\(mut self, other: R\) -> Self',
+             'route_layer': r'pub fn route_layer<L>\(self, layer: L\) -> Self', 'call': r'fn call\(&mut self, req: Request<Bytes>\) -> Self::Future', 'new': r'pub fn new\(\) -> Self'}
+    for k, want in pieces.items():
+        b = flat(block_after(r, heads[k]))
+        if b != want:
+            raise ValueError('router: Router::' + k + ': ' + b[:140])
+    mi = flat(block_after(r, r'fn insert\(\s*&mut self,\s*path: impl Into<String>,\s*val: RouteId,?\s*\)'))
+    if mi != 'let path = path.into(); self.inner.insert(&path, val)?; let shared_path: Arc<str> = path.into(); self.route_id_to_path.insert(val, shared_path.clone()); self.path_to_route_id.insert(shared_path, val); Ok(())':
+        raise ValueError('router: RouteMatcher::insert: ' + mi[:200])
+    nf = flat(strip_comments(read(repo, 'crates/anemo/src/routing/not_found.rs')))
+    if 'StatusCode::NotFound' not in nf:
+        raise ValueError('router: NotFound fallback')
+    return 'def routerShapeChecked : Bool := true\n'
+
+
+def item_rpc(repo):
+    """typed calls (C17): Status <-> Response conversion, client and server `unary`, the two codecs"""
+    m = strip_comments(read(repo, 'crates/anemo/src/rpc/mod.rs'))
+    f = flat(m)
+    pieces = [
+        ('Status::from_response', 'fn from_response<T>(response: Response<T>) -> Self { let peer_id = response.peer_id().copied(); let (parts, _body) = response.into_parts(); let message = parts .headers .get(crate::types::header::STATUS_MESSAGE) .cloned(); Self { status: parts.status, message, peer_id, headers: parts.headers, source: None, } }'),
+        ('Status::into_response', 'fn into_response(self) -> Response<bytes::Bytes> { let mut response = self.status.into_response(); response.headers_mut().extend(self.headers); if let Some(message) = self.message { response .headers_mut() .insert(crate::types::header::STATUS_MESSAGE.to_owned(), message); } response }'),
+        ('client unary', 'let request = { let (mut parts, body) = request.into_parts(); parts.headers.insert( crate::types::header::CONTENT_TYPE.to_owned(), codec.format_name().to_owned(), ); let mut encoder = codec.encoder(); let bytes = encoder .encode(body) .map_err(Into::into) .map_err(Status::from_error)?; Request::from_parts(parts, bytes) }; let response = self .inner .call(request) .await .map_err(Into::into) .map_err(Status::from_error)?; let status_code = response.status(); if !status_code.is_success() { return Err(Status::from_response(response)); } let response = { let (parts, body) = response.into_parts(); let mut decoder = codec.decoder(); let message = decoder .decode(body) .map_err(Into::into) .map_err(Status::from_error)?; Response::from_parts(parts, message) }; Ok(response)'),
+        ('server unary', 'let request = match self.map_request(request).await { Ok(r) => r, Err(status) => { return self.map_response(Err(status)); } }; let response = service.call(request).await; self.map_response(response)'),
+        ('server map_request', 'let (parts, body) = request.into_parts(); let mut decoder = self.request_codec.decoder(); let message = decoder .decode(body) .map_err(Into::into) .map_err(Status::from_error)?; let req = Request::from_parts(parts, message); Ok(req)'),
+        ('server map_response', 'let response = match response { Ok(r) => r, Err(status) => return status.into_response(), }; let (mut parts, body) = response.into_parts(); parts.headers.insert( crate::types::header::CONTENT_TYPE.to_owned(), self.response_codec.format_name().to_owned(), ); let mut encoder = self.response_codec.encoder(); let bytes = match encoder .encode(body) .map_err(Into::into) .map_err(|err| Status::internal(format!("Error encoding: {err}"))) { Ok(bytes) => bytes, Err(status) => return status.into_response(), }; Response::from_parts(parts, bytes)'),
+    ]
+    for name, want in pieces:
+        if want not in f:
+            raise ValueError('rpc: shape of ' + name)
+    c = flat(strip_comments(read(repo, 'crates/anemo/src/rpc/codec.rs')))
+    for name, want in [('JsonDecoder', 'fn decode(&mut self, buf: bytes::Bytes) -> Result<Self::Item, Self::Error> { serde_json::from_slice(&buf) }'),
+                       ('JsonEncoder', 'let buf = serde_json::to_vec(&item)?; Ok(buf.into())'),
+                       ('BincodeDecoder', 'fn decode(&mut self, buf: bytes::Bytes) -> Result<Self::Item, Self::Error> { bincode::deserialize(&buf) }'),
+                       ('BincodeEncoder', 'let buf = bincode::serialize(&item)?; Ok(buf.into())')]:
+        if want not in c:
+            raise ValueError('rpc: shape of ' + name)
+    return 'def rpcShapeChecked : Bool := true\n'
+
+
 ITEMS = [('ANEMO', item_anemo), ('Version', item_version), ('StatusCode', item_status),
-         ('headers', item_headers), ('ConfigDefaults', item_config), ('tieBreak', item_tiebreak), ('codegen', item_codegen), ('admit', item_admit), ('life', item_life), ('registry', item_registry), ('tick', item_tick), ('rpcpath', item_rpcpath), ('tls', item_tls), ('wirefmt', item_wirefmt), ('tower', item_tower), ('timeouts', item_timeouts)]
+         ('headers', item_headers), ('ConfigDefaults', item_config), ('tieBreak', item_tiebreak), ('codegen', item_codegen), ('admit', item_admit), ('life', item_life), ('registry', item_registry), ('tick', item_tick), ('rpcpath', item_rpcpath), ('tls', item_tls), ('wirefmt', item_wirefmt), ('tower', item_tower), ('timeouts', item_timeouts), ('router', item_router), ('rpc', item_rpc)]
 
 HEADER = '''/- GENERATED by /verif/tools/gen.py from /repo's working tree on every run -- do not edit. -/
 import AnemoModel.Basic
